@@ -2,7 +2,12 @@
 
 The harness generates the *document tree* (files -> runs -> spectrum queries -> search results ->
 search hits), renders it to PepXML text itself, gives the text to the real code and the tree to
-the extracted model, and compares the rows of the data frame column by column."""
+the extracted model, and compares the rows of the data frame column by column.
+
+[R2.20] Cases of kind "table" go through the model of the WHOLE reader (Model/PepxmlPost.v, driver entry
+c20.table): the options exclude_features / open_modification_bin_size / to_df and the returned table (column
+names, order, dtypes, roles, which columns _log_features transformed, every cell) are compared model-vs-code;
+the floating-point operations are the model's recorded oracles (record_oracles)."""
 import atexit
 import itertools
 import math
@@ -49,6 +54,18 @@ RULE = ("cases: (1) exhaustive small scope: all 0..2-modification lists over pos
         "differences in equal bins, monotone), the untouched text of excluded columns, the dataset views and the error "
         "kind OSError.  Every numeric feature column (search scores, mass_diff, abs_mz_diff) must carry its own row's "
         "value or, for the whole column, its log10.  (10) search scores named like the parser's own keys: known finding.  "
+        "[R2.20] The streams (5), (6), (8), (9) and a new exhaustive stream (11) are compared with the model of the whole "
+        "reader (Model/PepxmlPost.v, entry c20.table; tag table-model): ordered column names, dtype kind of every column, "
+        "every cell (texts, integers, booleans exactly; floats bit for bit), the set of log-transformed columns, the peptide "
+        "WITH its bin suffix, and for to_df=False the feature list and the role of every column handed to LinearPsmDataset; "
+        "the model's floating-point oracles (float(text), log10, mass_diff, abs_mz_diff, repr mantissa/exponent, bin suffix) "
+        "are recorded from the document alone with the identical IEEE operations, and each recorded value is checked against "
+        "its contract (extra_checks).  (11) = every boundary of the _log_features rule on one score column (max/min ratio "
+        "exactly 10000, one ulp around it, binary, zeros, negatives, missing values, exponent notation with exponents 3 / 4 "
+        "apart, upper case, a zero or negative or missing value beside an exponent), optional integer attributes large "
+        "enough to be log-transformed, num_matched_peptides 0 / 1 / 10, charges 0..100 in numeric column order, every kind "
+        "of excluded name one at a time, score texts that are no numbers (ValueError unless excluded), to_df=False without "
+        "targets / decoys, equal / tiny / zero / negative mass differences over 1..2 files with and without bins.  "
         "distinct = distinct (prefix, document trees, rendering styles, options); non-trivial = >=2 hits, or a hit with >=2 "
         "modifications or >=1 alternative protein, or a malformed document")
 ASSUMPTIONS = [
@@ -62,7 +79,14 @@ ASSUMPTIONS = [
     "pepxml:score-name-collides-with-parser-key); all other streams avoid them; search_score values are numeric literals",
     "numeric attributes are decimal literals with <= 4 fractional digits (plain, zero-padded, exponent or signed form), "
     "passed to the model as integers scaled by 10^4 (the model only moves them); num_matched_peptides >= 0, "
-    "missed cleavages / ntt in 0..9 (so that _log_features is the identity on them)",
+    "missed cleavages / ntt in 0..9 (so that _log_features is the identity on them; table-model cases: any integers)",
+    "[R2.20, cases tagged table-model] the DECISIONS of the post-processing are computed by Model/PepxmlPost.v; its oracles are "
+    "the floating-point operations only: float(text) (contract: the correctly rounded decimal value), numpy.log10 (monotone, "
+    "within 2 ulp of math.log10, log10(1)=0), mass_diff = float(exp)-float(calc) and abs_mz_diff (within rounding of the exact "
+    "rational value), mantissa/exponent of repr(x) (mantissa*10^exponent is x, 1<=|mantissa|<10, exponent notation iff "
+    "|x|<1e-4 or |x|>=1e16), the bin suffix (within bin/2 + 1e-4 of the mass difference, monotone; a function of the mass "
+    "difference by construction); score values are finite numeric literals or plainly non-numeric texts (no inf / nan / "
+    "underscore literals), masses are >= 0, open_modification_bin_size > 0; for the other cases: "
     "numeric feature post-processing (_log_features, log10 of num_matched_peptides, mass_diff, abs_mz_diff, "
     "charge one-hot, open-modification bins) is an oracle for the Coq model; the harness checks: presence of the column, "
     "float dtype (unless excluded), NaN pattern, the exact value for columns on which the transform is certainly the "
@@ -73,7 +97,8 @@ ASSUMPTIONS = [
     "warnings are not errors and numpy's floating-point error state is the default (log10(0) for num_matched_peptides=0 "
     "warns); logging is disabled by the runner",
 ]
-TRUSTED_EXTRA = ["lxml.etree.iterparse / Element.iter document order (oracle)",
+TRUSTED_EXTRA = ["[R2.20] numpy float64 arithmetic, numpy.log10, Python float() / repr() as recorded by record_oracles (contracts checked)",
+                 "lxml.etree.iterparse / Element.iter document order (oracle)",
                  "pandas DataFrame.from_records / concat / get_dummies / apply keep row order (checked by the row comparison)"]
 
 NS = "http://regis-web.systemsbiology.net/pepXML"
@@ -454,12 +479,22 @@ def spec_peptide(h):
 
 
 # ----------------------------------------------------------------------------- canonical form
-def canon_rows(rows, ident):
+def _num_or_text(v):
+    """an excluded score column keeps its text, which need not be a number ([R2.20]: compared as text in the table)"""
+    try:
+        return float(v)
+    except (TypeError, ValueError):
+        return "text:" + str(v)
+
+
+def canon_rows(rows, ident, table=False):
     out = []
     for r in rows:
-        sc = sorted([n, (float(v) if n in ident else "num")] for n, v in r["scores"])
+        sc = sorted([n, (_num_or_text(v) if n in ident else "num")] for n, v in r["scores"])
+        # [R2.20] table cases: the optional integer attributes may be log-transformed; they are compared in the table
+        opt3 = [None, None, None] if table else [r["mc"], r["ntt"], r["nmp"]]
         out.append([r["file"], r["scan"], r["charge"], r["rt"], r["exp"], r["calc"], r["peptide"],
-                    r["proteins"], bool(r["label"]), r["mc"], r["ntt"], r["nmp"], sc])
+                    r["proteins"], bool(r["label"])] + opt3 + [sc])
     return out
 
 
@@ -504,6 +539,8 @@ def enc_file(f):
 def encode(c):
     if c["fn"] == "read":
         return "c20.read " + lib.s(c["prefix"]) + " " + lib.lst(c["files"], enc_file)
+    if c["fn"] == "table":
+        return encode_table(c)
     raise ValueError(c["fn"])
 
 
@@ -519,17 +556,317 @@ def decode(c, t):
         r["nmp"] = t.opt()
         r["scores"] = t.lst(lambda: (t.s(), t.s()))
         return r
-    res = t.result(lambda: t.lst(psm))
+    if c["fn"] == "table":
+        res = t.result(lambda: (t.lst(psm), decode_table(t)))
+    else:
+        res = t.result(lambda: (t.lst(psm), None))
     t.done()
     if res[0] != "ok":
         if tuple(res) == ("err", "ValueError") and path_broken_first(c):
             # outside the model (which starts from element trees): a path that cannot be opened is an OSError
             return ("err", "OSError")
         return res
-    rows = res[1]
-    return ("ok", {"rows": canon_rows(rows, ident_cols(c)), "columns": expected_columns(rows), "nonfloat": [],
-                   "anomalies": []})
+    rows, table = res[1]
+    out = {"rows": canon_rows(rows, ident_cols(c), table=(c["fn"] == "table")), "columns": expected_columns(rows),
+           "nonfloat": [], "anomalies": []}
+    if table is not None:
+        out["table"] = table
+    return ("ok", out)
 
+
+
+# ----------------------------------------------------------------------------- the options and the returned table (R2.20)
+# Model/PepxmlPost.v computes the returned table from the parsed rows and the options; the floating-point
+# computations are its oracles.  They are recorded HERE, from the document alone (never from the implementation's
+# answer), with the identical IEEE operations, and their contracts are checked on every recorded value.
+from fractions import Fraction
+
+META9 = ["ms_data_file", "scan", "charge", "ret_time", "exp_mass", "calc_mass", "peptide", "proteins", "label"]
+ATTR_COLS = ("ret_time", "exp_mass", "calc_mass")
+_CONTRACT_FAIL = []
+_COUNTS = {"float(text)": 0, "log10": 0, "mass_diff": 0, "abs_mz_diff": 0, "repr": 0, "bin suffix": 0}
+
+
+def _contract(ok, what, case):
+    if not ok and len(_CONTRACT_FAIL) < 50:
+        _CONTRACT_FAIL.append((what, {k: v for k, v in case.items()}))
+
+
+def _repr_parts(x):
+    """repr(x) of a double in exponent notation -> (float(mantissa text), int(exponent text)); None otherwise"""
+    r = repr(float(x)).lower()
+    if "e" not in r:
+        return None
+    a, b = r.split("e")[:2]
+    return float(a), int(b)
+
+
+_ORACLES = {}
+
+
+def record_oracles(case):
+    """the recorded oracles of Model/PepxmlPost.v for this document (computed once per case object)"""
+    got = _ORACLES.get(id(case))
+    if got is None or got[0] is not case:
+        got = (case, _record_oracles(case))
+        _ORACLES[id(case)] = got
+    return got[1]
+
+
+def _record_oracles(case):
+    """float(text), log10, mass_diff, abs_mz_diff, repr, the bin suffix; every one computed from the document with the
+    IEEE operations of the anchored code, and checked against its contract"""
+    import numpy as np
+    hits = [(s, h) for _, _, s, h in all_hits(case)]
+    num, md, mz, rp = {}, {}, {}, {}
+    pos = set()                                   # positive doubles whose log10 may be asked for
+
+    def add_float(x):
+        """a double that sits in a float column before _log_features"""
+        x = float(x)
+        if x > 0 and math.isfinite(x):
+            pos.add(x)
+        parts = _repr_parts(x) if math.isfinite(x) and x != 0 else None
+        if parts is not None:
+            rp[x] = parts
+            fx, fr = Fraction(x), Fraction(parts[0]) * Fraction(10) ** parts[1]
+            _contract(1 <= abs(parts[0]) < 10 and abs(fr - fx) <= abs(fx) / 2 ** 52,
+                      "repr: mantissa * 10^exponent is not the double (1 <= |mantissa| < 10)", case)
+            _contract(abs(x) < 1e-4 or abs(x) >= 1e16, "repr: exponent notation outside |x| < 1e-4 or |x| >= 1e16", case)
+            if parts[0] > 0:
+                pos.add(parts[0])
+        else:
+            _contract(x == 0 or not math.isfinite(x) or 1e-4 <= abs(x) < 1e16,
+                      "repr: positional notation inside |x| < 1e-4 or |x| >= 1e16", case)
+
+    def add_text(t):
+        if t in num:
+            return
+        try:
+            x = float(t)
+        except ValueError:
+            x = None
+        if x is not None and not math.isfinite(x):
+            x = None                                             # inf / nan literals: not generated (assumption)
+        num[t] = None if x is None else Fraction(x)
+        if x is not None:
+            try:
+                _contract(float(Fraction(t)) == x, "float(text) is not the correctly rounded decimal value", case)
+            except (ValueError, ZeroDivisionError):
+                pass
+            if x > 0:
+                pos.add(x)
+
+    for s, h in hits:
+        for _, v in h["scores"]:
+            low = v.lower()
+            add_text(low)
+            if "e" in low:
+                add_text(low.split("e")[0])
+        for k in ("mc", "ntt", "nmp"):
+            if h[k] is not None and h[k] > 0:
+                pos.add(float(h[k]))
+        if None in (s["mass"], h["calc"]):
+            continue
+        e, k, z = s["mass"], h["calc"], s["charge"]
+        fe, fk = e / SCALE, k / SCALE                            # == float(the attribute text): correctly rounded
+        if (e, k) not in md:
+            d = float(np.float64(fe) - np.float64(fk))
+            md[(e, k)] = d
+            _contract(abs(Fraction(d) - Fraction(e - k, SCALE)) <= (abs(Fraction(fe)) + abs(Fraction(fk)) + abs(Fraction(d))) / 2 ** 52,
+                      "mass_diff: not within rounding of exp_mass - calc_mass", case)
+            add_float(d)
+        if z is not None and z != 0 and (e, k, z) not in mz:
+            a = float(abs((np.float64(fe) / np.int64(z) + PROTON) - (np.float64(fk) / np.int64(z) + PROTON)))
+            mz[(e, k, z)] = a
+            _contract(abs(Fraction(a) - abs(Fraction(e - k, SCALE * z))) <= (max(abs(Fraction(fe)), abs(Fraction(fk))) / abs(z) + 2) / 2 ** 50,
+                      "abs_mz_diff: not within rounding of |exp_mass - calc_mass| / charge", case)
+            add_float(a)
+    # log10: numpy on an array (scalar and array paths agree; math.log10 does not, by an ulp)
+    lg = {}
+    for _round in range(2):
+        todo = sorted(x for x in pos if x not in lg)
+        if not todo:
+            break
+        with np.errstate(all="ignore"):
+            vals = np.log10(np.array(todo, dtype=np.float64))
+        for x, y in zip(todo, vals.tolist()):
+            lg[x] = y
+            _contract(abs(y - math.log10(x)) <= 4e-16 * max(1.0, abs(y)), "log10: more than 2 ulp away from math.log10", case)
+        if _round == 0:
+            # num_matched_peptides is already log10(n) when _log_features sees it
+            for _, h in hits:
+                if h["nmp"] is not None and h["nmp"] > 0:
+                    add_float(lg[float(h["nmp"])])
+    ks = sorted(lg)
+    _contract(all(lg[a] <= lg[b] for a, b in zip(ks, ks[1:])), "log10: not monotone", case)
+    _contract(lg.get(1.0, 0.0) == 0.0, "log10(1) != 0", case)
+    # bin suffix: np.arange / np.digitize / round(4) / str on the whole mass_diff column
+    sfx, rng_ = {}, None
+    aligned = bool(hits) and all(None not in (s["mass"], h["calc"]) for s, h in hits)
+    if case.get("bin") is not None and aligned:
+        size = float(case["bin"])
+        col = np.array([md[(s["mass"], h["calc"])] for s, h in hits], dtype=np.float64)
+        bins = np.arange(col.min(), col.max() + size, step=size)
+        idx = np.digitize(col, bins) - 1
+        mods = (bins[idx] + (size / 2.0)).round(4)
+        for x, t in zip(col.tolist(), mods.astype(str).tolist()):
+            sfx[x] = t
+            _contract(abs(float(t) - x) <= size / 2 + 1e-4 + 1e-9 * max(1.0, abs(x)),
+                      "bin suffix: further than bin/2 (+ rounding to 4 digits) from the mass difference", case)
+        ks = sorted(sfx)
+        _contract(all(float(sfx[a]) <= float(sfx[b]) for a, b in zip(ks, ks[1:])), "bin suffix: not monotone", case)
+        rng_ = (float(col.min()), float(col.max()))
+    for key, n in (("float(text)", len(num)), ("log10", len(lg)), ("mass_diff", len(md)), ("abs_mz_diff", len(mz)),
+                   ("repr", len(rp)), ("bin suffix", len(sfx))):
+        _COUNTS[key] += n
+    return {"num": num, "lg": lg, "md": md, "mz": mz, "rp": rp, "sfx": sfx, "range": rng_}
+
+
+def encode_table(c):
+    o = record_oracles(c)
+    fq = lambda x: lib.q(Fraction(x))
+    parts = [
+        "c20.table", lib.s(c["prefix"]), lib.lst(c["files"], enc_file),
+        lib.lst(exclude_names(c), lib.s),
+        lib.opt(None if c.get("bin") is None else Fraction(c["bin"]), lib.q),
+        lib.b(not c.get("dataset")),
+        lib.lst(sorted(o["num"].items()), lambda kv: lib.s(kv[0]) + " " + lib.opt(kv[1], lib.q)),
+        lib.lst(sorted(o["lg"].items()), lambda kv: fq(kv[0]) + " " + fq(kv[1])),
+        lib.lst(sorted(o["md"].items()), lambda kv: lib.z(kv[0][0]) + " " + lib.z(kv[0][1]) + " " + fq(kv[1])),
+        lib.lst(sorted(o["mz"].items()),
+                lambda kv: lib.z(kv[0][0]) + " " + lib.z(kv[0][1]) + " " + lib.z(kv[0][2]) + " " + fq(kv[1])),
+        lib.lst(sorted(o["rp"].items()), lambda kv: fq(kv[0]) + " " + fq(kv[1][0]) + " " + lib.z(kv[1][1])),
+        lib.lst(sorted(o["sfx"].items()), lambda kv: fq(kv[0]) + " " + lib.s(kv[1])),
+        lib.opt(o["range"], lambda r: fq(r[0]) + " " + fq(r[1])),
+    ]
+    return " ".join(parts)
+
+
+def _fhex(x):
+    x = float(x)
+    if x != x:
+        return ["nan"]
+    if x == float("-inf"):
+        return ["-inf"]
+    if x == 0:
+        return ["n", (0.0).hex()]
+    return ["n", x.hex()]
+
+
+KINDS = ["text", "bool", "int", "float"]
+
+
+def decode_table(t):
+    def cell():
+        tag = t.int()
+        if tag == 0:
+            return ["t", t.s()]
+        if tag == 1:
+            return ["b", t.b()]
+        if tag == 2:
+            return ["i", t.z()]
+        if tag == 3:
+            return ["a", t.z()]
+        if tag == 4:
+            return _fhex(t.q())          # Fraction -> float is correctly rounded: the IEEE result of the one operation
+        if tag == 5:
+            return ["nan"]
+        if tag == 6:
+            return ["-inf"]
+        raise lib.ModelError(f"cell tag {tag}")
+
+    def col():
+        name = t.s()
+        kind = KINDS[t.int()]
+        role = t.int()
+        logged = t.b()
+        return name, kind, role, logged, t.lst(cell)
+    cols = t.lst(col)
+    roles = t.opt(lambda: {"target": t.s(), "spectrum": t.lst(t.s), "peptide": t.s(), "protein": t.s(),
+                           "features": t.lst(t.s), "filename": t.s(), "scan": t.s(), "calcmass": t.s(),
+                           "expmass": t.s(), "rt": t.s(), "charge": t.s()})
+    return {"cols": [[n, k] for n, k, _, _, _ in cols],
+            "cells": {n: cs for n, _, _, _, cs in cols},
+            "logged": sorted(n for n, _, _, lg_, _ in cols if lg_),
+            "badcols": [],
+            # the role of a column is observable only through the dataset (to_df=False)
+            "features": None if roles is None else [n for n, _, r, _, _ in cols if r == 1],
+            "roles": roles}
+
+
+def _kind_of(dtype):
+    d = str(dtype)
+    return {"float64": "float", "int64": "int", "bool": "bool"}.get(d, "text")
+
+
+def _impl_table(case, df, dset):
+    """the returned frame (and dataset) in the form of decode_table"""
+    import pandas as pd
+    names = [str(c) for c in df.columns]
+    kinds = [_kind_of(df[c].dtype) for c in df.columns]
+    cells = {}
+    cols = df.to_dict("list")
+    for name, kind in zip(names, kinds):
+        out = []
+        for x in cols[name]:
+            if kind == "text":
+                out.append(["nan"] if pd.isna(x) else ["t", str(x)])
+            elif kind == "bool":
+                out.append(["b", bool(x)])
+            elif kind == "int":
+                out.append(["i", int(x)])
+            elif name in ATTR_COLS:
+                out.append(["a", _unscale(x)])
+            else:
+                out.append(_fhex(x))
+        cells[name] = out
+    # which numeric columns carry log10 of the document's values (decided from the values alone)
+    hits = list(all_hits(case))
+    o = record_oracles(case)
+    logged, bad = [], []
+    for name, kind in zip(names, kinds):
+        if name in META9 or kind not in ("float", "int") or len(hits) != len(df):
+            continue
+        if name in ("missed_cleavages", "ntt"):
+            key = "mc" if name == "missed_cleavages" else "ntt"
+            want = [None if h[key] is None else float(h[key]) for _, _, _, h in hits]
+        elif name == "num_matched_peptides":
+            want = [None if (h["nmp"] is None or h["nmp"] < 0) else (float("-inf") if h["nmp"] == 0 else o["lg"][float(h["nmp"])])
+                    for _, _, _, h in hits]
+        elif name == "mass_diff":
+            want = [o["md"].get((s["mass"], h["calc"])) for _, _, s, h in hits]
+        elif name == "abs_mz_diff":
+            want = [o["mz"].get((s["mass"], h["calc"], s["charge"])) for _, _, s, h in hits]
+        elif name.startswith("charge_"):
+            continue
+        else:
+            want = []
+            for _, _, _, h in hits:
+                v = score_dict(h).get(name)
+                try:
+                    want.append(None if v is None else float(v))
+                except ValueError:
+                    want.append(None)
+        try:
+            mode = column_mode(want, cols[name], abs_tol=1e-9)
+        except (TypeError, ValueError):
+            mode = "bad"
+        if mode == "log":
+            logged.append(name)
+        elif mode == "bad":
+            bad.append(name)
+    roles = feats = None
+    if dset is not None:
+        feats = [str(c) for c in dset.features.columns]
+        oc = getattr(dset, "_optional_columns", None) or {}
+        roles = {"target": getattr(dset, "_target_column", None),
+                 "spectrum": [str(c) for c in dset.spectra.columns],
+                 "peptide": getattr(dset, "_peptide_column", None), "protein": getattr(dset, "_protein_column", None),
+                 "features": feats, "filename": oc.get("filename"), "scan": oc.get("scan"), "calcmass": oc.get("calcmass"),
+                 "expmass": oc.get("expmass"), "rt": oc.get("rt"), "charge": oc.get("charge")}
+    return {"cols": [[n, k] for n, k in zip(names, kinds)], "cells": cells, "logged": sorted(logged), "badcols": sorted(bad),
+            "features": feats, "roles": roles}
 
 # ----------------------------------------------------------------------------- implementation side
 def _unscale(x):
@@ -749,7 +1086,10 @@ def _canon_frame(case, df, excluded):
     for i in range(n):
         sc = []
         for c in score_cols:
-            v = float(recs[c][i])
+            v = _num_or_text(recs[c][i])
+            if isinstance(v, str):
+                sc.append([c, v])
+                continue
             if v != v:
                 continue
             if c in bad_cols:
@@ -762,13 +1102,14 @@ def _canon_frame(case, df, excluded):
             want = 1.0 if c2 == ch else 0.0
             if float(recs[f"charge_{c2}"][i]) != want:
                 sc.append([f"charge_{c2}", "wrong one-hot"])
+        opt3 = [None, None, None] if case["fn"] == "table" else [
+            _small_int(recs["missed_cleavages"][i]) if "missed_cleavages" in recs else None,
+            _small_int(recs["ntt"][i]) if "ntt" in recs else None,
+            _unlog(recs["num_matched_peptides"][i]) if "num_matched_peptides" in recs else None]
         rows.append([str(recs["ms_data_file"][i]), int(recs["scan"][i]), ch,
                      _unscale(recs["ret_time"][i]), _unscale(recs["exp_mass"][i]), _unscale(recs["calc_mass"][i]),
-                     peptides[i], str(recs["proteins"][i]), bool(recs["label"][i]),
-                     _small_int(recs["missed_cleavages"][i]) if "missed_cleavages" in recs else None,
-                     _small_int(recs["ntt"][i]) if "ntt" in recs else None,
-                     _unlog(recs["num_matched_peptides"][i]) if "num_matched_peptides" in recs else None,
-                     sorted(sc, key=lambda x: [str(y) for y in x])])
+                     peptides[i], str(recs["proteins"][i]), bool(recs["label"][i])] + opt3
+                    + [sorted(sc, key=lambda x: [str(y) for y in x])])
     return {"rows": rows, "columns": sorted(cols), "nonfloat": nonfloat, "anomalies": anomalies}
 
 
@@ -829,10 +1170,14 @@ def _read(case):
             for _ in range(2 if case.get("repeat") else 1):
                 out = _call(case, _argument(case, paths))
                 anomalies = []
+                dset = None
                 if case.get("dataset"):
+                    dset = out
                     out = _dataset_frame(case, out, excluded, anomalies)
                 res = _canon_frame(case, out, excluded)
                 res["anomalies"] = anomalies + res["anomalies"]
+                if case["fn"] == "table":
+                    res["table"] = _impl_table(case, out, dset)
                 outs.append(res)
     finally:
         if not case.get("shared"):
@@ -850,7 +1195,17 @@ def impl(c):
 
 
 def same(c, m, i):
-    return lib.jsonable(m) == lib.jsonable(i)
+    m, i = lib.jsonable(m), lib.jsonable(i)
+    try:
+        # roles kept in private attributes of the dataset are compared when the implementation exposes them
+        ri, rm = i[1]["table"]["roles"], m[1]["table"]["roles"]
+        if ri is not None and rm is not None:
+            for k, v in ri.items():
+                if v is None:
+                    rm[k] = None
+    except (KeyError, TypeError, IndexError):
+        pass
+    return m == i
 
 
 # ----------------------------------------------------------------------------- property oracle
@@ -864,6 +1219,8 @@ def oracle(c, i):
             return f"malformed or Percolator-produced PepXML must raise ValueError, got {i!r}"
         return None
     if not well_formed(c):
+        return None
+    if outside_quantifier(c):
         return None
     if tuple(i)[0] != "ok":
         return f"a well-formed PepXML document was rejected: {i!r}"
@@ -895,7 +1252,7 @@ def oracle(c, i):
                 return f"PSM {k}: search score {n!r} is not a numeric feature of the PSM"
             if any(len(x) > 2 and x[0] == n and x[1] == "wrong value" for x in row[12]):
                 return f"PSM {k}: search score {n!r} = {v} is carried as {[x[2] for x in row[12] if x[0] == n]}"
-            if n in ident and [n, float(v)] not in [list(x) for x in row[12]]:
+            if n in ident and [n, _num_or_text(v)] not in [list(x) for x in row[12]]:
                 return f"PSM {k}: search score {n!r} = {v} not carried"
         if any(str(x[1]) == "wrong one-hot" for x in row[12]):
             return f"PSM {k}: charge one-hot columns do not match charge {row[2]}"
@@ -904,6 +1261,25 @@ def oracle(c, i):
     if res.get("anomalies"):
         return "; ".join(res["anomalies"][:3])
     return None
+
+
+def outside_quantifier(c):
+    """well-formed documents the property text does not speak about: a search score that is no number and is not
+    excluded ("all search scores as numeric features" cannot hold; the code raises ValueError), and to_df=False on a
+    document without targets or without decoys (LinearPsmDataset refuses it, after the parse)"""
+    excluded = set(exclude_names(c))
+    for _, _, _, h in all_hits(c):
+        for n, v in score_dict(h).items():
+            if n in excluded:
+                continue
+            try:
+                if not math.isfinite(float(v)):
+                    return True
+            except ValueError:
+                return True
+    if c.get("dataset") and doc_labels(c["files"], c["prefix"]) != {True, False}:
+        return True
+    return False
 
 
 def _defects(c):
@@ -1734,10 +2110,135 @@ def gen_collisions(ctx):
     return cases
 
 
+def extra_checks(ctx):
+    """[R2.20] the contracts of the recorded floating-point oracles, checked on every value recorded during the run"""
+    fails, seen = [], set()
+    for what, c in _CONTRACT_FAIL:
+        if what in seen:
+            continue
+        seen.add(what)
+        fails.append({"what": "oracle contract: " + what, "failing_input": c})
+    return fails[:10], {"oracle_values_checked": dict(_COUNTS)}
+
+
+def tbl_doc(cols, charges=None, deltas=None, mc=None, ntt=None, nmp=None, decoys=None, nfiles=1, order=None):
+    """n hits (one per spectrum, spread over nfiles files); cols: {score name: [text or None per hit]}"""
+    n = len(next(iter(cols.values()))) if cols else len(charges or deltas or mc or ntt or nmp or decoys)
+    hits = []
+    for i in range(n):
+        scores = [("hyperscore", f"{i + 1}.5")]
+        for name in (order[i] if order else list(cols)):
+            if cols[name][i] is not None:
+                scores.append((name, cols[name][i]))
+        mass = 9896051 + 1000 * i
+        delta = deltas[i] if deltas else 230 * (i + 1)
+        dec_ = decoys[i] if decoys else bool(i % 2)
+        h = mk_hit(pep="PEPK"[: 2 + i % 3] + "R" * (i % 2), prot=("rev_" if dec_ else "") + f"P{i} d", calc=mass - delta,
+                   mc=mc[i] if mc else None, ntt=ntt[i] if ntt else None, nmp=nmp[i] if nmp else None, scores=scores)
+        hits.append(mk_spec([[h]], scan=i + 1, charge=charges[i] if charges else 2 + i % 2, mass=mass, rt=100000 + i))
+    per = max(1, -(-n // nfiles))
+    return [mk_file([mk_run(hits[k:k + per], base=f"t{k}")]) for k in range(0, n, per)]
+
+
+# value lists of one score column, chosen at the boundaries of _log_features
+TBL_VALUES = [
+    # max / min of the non-zero values against 10000 (1.1 / 11000: the exact quotient is below 10000, the double is not)
+    ["1", "10000"], ["1", "9999.9999"], ["0.00001", "0.1"], ["1.1", "11000"], ["0.3", "3000"], ["0.7", "7000"],
+    ["1.3", "13000"], ["1.7", "17000"], ["1.9", "19000"], ["0.0003", "3"], ["2", "19999.999999999996"], ["5", "50000", "7"],
+    # binary / zeros / missing / negative
+    ["0", "1", "1"], ["0", "0"], ["1", "1"], ["0", "1", None], ["0", "20000", "1"], ["0", "0", "5"], ["0", "2", "20000"],
+    ["-1", "5", "50000"], ["-0", "1", "10000"], [None, "3", None], ["0.5", None, "5000"], ["0", None, "0"],
+    # exponent notation: powers 4 apart or not, upper case, a missing / zero / negative value beside it
+    ["1e-5", "1e-1"], ["1e-4", "1e-1"], ["1e-4", "5"], ["2e-3", "90"], ["2.5E-07", "0.1"], ["2.5e-07", None, "0.1"],
+    ["0e0", "1e-9"], ["-1e-5", "1e5"], ["1e5", "1e1"], ["1e+05", "10"], ["1.768e+00", "4.2e+01"], ["3E-3", "30"],
+    ["1e-12", "0.5", "7e2"], ["2.5e-07", "0", "25"], ["0.0e+00", "1e-9", "1"],
+]
+
+
+def gen_table_exh(ctx):
+    """[R2.20] the decisions of the post-processing, one at a time: every boundary of the _log_features rule on a score
+    column, optional integer attributes that are logged, charges in numeric order, every kind of excluded column,
+    texts that are no numbers, to_df=False without targets / decoys, equal mass differences in several files"""
+    cases = []
+
+    def add(files, tags, **kw):
+        cases.append(mk_case(files, "rev_", ["table-exh"] + tags, **kw))
+    for vals in TBL_VALUES:
+        for ex in (None, {"kind": "str", "names": ["s"]}):
+            for ds in ((False, True) if len(vals) >= 2 else (False,)):
+                kw = {}
+                if ex:
+                    kw["exclude"] = ex
+                if ds:
+                    kw["dataset"] = True
+                add(tbl_doc({"s": vals}), ["log-rule"] + (["exclude=str"] if ex else []) + (["to_df=False"] if ds else []), **kw)
+    # two score columns with different decisions; first appearance order of the names across hits and files
+    add(tbl_doc({"a": ["1", "20000", None], "b": [None, "0.5", "2"]}, order=[["a"], ["b", "a"], ["b"]], nfiles=2),
+        ["column-order"])
+    add(tbl_doc({"b": [None, "1e-9", "2"], "a": ["1", "2", "3"]}, mc=[None, 1, 2], ntt=[2, None, None], nmp=[None, None, 5],
+                order=[["a"], ["b", "a"], ["a", "b"]], nfiles=3), ["column-order"])
+    # optional integer attributes
+    for mc, ntt, nmp in [([1, 10000, 3], [2, 2, 2], [0, 10, 1]), ([0, 1, 1], [0, 0, 0], [1, 10, 10]),
+                         ([1, None, 20000], [None, 1, 2], [1, 100, None]), ([3, 3, 3], [1, 2, 30000], [7, 0, 1234]),
+                         ([None, None, 2], [1, 1, 1], [1, 1, 1])]:
+        for ex in (None, {"kind": "list", "names": ["missed_cleavages", "num_matched_peptides"]},
+                   {"kind": "tuple", "names": ["ntt", "hyperscore"]}):
+            add(tbl_doc({"s": ["1", "2", "3"]}, mc=mc, ntt=ntt, nmp=nmp), ["optional-ints"] + (["exclude=" + ex["kind"]] if ex else []),
+                **({"exclude": ex} if ex else {}))
+    # charges: numeric order of the one-hot columns, two-digit charges, charge 0 (abs_mz_diff NaN)
+    for ch in ([10, 2, 2, 1], [3, 3, 3], [12, 11, 9, 100], [0, 2, 10], [7, 1]):
+        for ex in (None, {"kind": "list", "names": [f"charge_{ch[0]}", "charge"]}):
+            add(tbl_doc({"s": [str(k + 1) for k in range(len(ch))]}, charges=ch), ["charges"] + (["exclude=list"] if ex else []),
+                **({"exclude": ex} if ex else {}))
+    # every kind of excluded name
+    base = lambda: tbl_doc({"s": ["1e-5", "0.1", "3"], "u": ["4", "5", None]}, mc=[1, 2, 3], nmp=[10, 100, 1000],
+                           deltas=[1, 100000, 30])
+    for nm in ["s", "u", "hyperscore", "missed_cleavages", "num_matched_peptides", "mass_diff", "abs_mz_diff", "charge_2",
+               "charge_3", "charge", "label", "peptide", "ms_data_file", "no such column", "S", "s "]:
+        for kind in ("str", "list"):
+            add(base(), ["exclude-each", "exclude=" + kind], exclude={"kind": kind, "names": [nm]})
+    add(base(), ["exclude-each", "exclude=tuple"], exclude={"kind": "tuple", "names": ["s", "u", "mass_diff", "charge_2", "x"]})
+    # texts that are no numbers: ValueError unless the column is excluded, then the text is kept
+    for vals in (["N/A", "2"], ["1,5", "2"], ["", "2"], ["1e", "2"], ["e5", "2"], ["1e5e2", "3"], ["0x10", "2"]):
+        add(tbl_doc({"s": vals}), ["non-numeric"])
+        add(tbl_doc({"s": vals}), ["non-numeric", "exclude=str"], exclude={"kind": "str", "names": ["s"]})
+        add(tbl_doc({"s": vals}), ["non-numeric", "exclude=list"], exclude={"kind": "list", "names": ["hyperscore"]})
+    # to_df=False: both labels needed
+    for dec_ in ([False, False, False], [True, True], [True, False, True], [False]):
+        for ex in (None, {"kind": "str", "names": ["s"]}):
+            add(tbl_doc({"s": [str(3 * k + 1) for k in range(len(dec_))]}, decoys=dec_), ["dataset-labels", "to_df=False"],
+                dataset=True, **({"exclude": ex} if ex else {}))
+    # mass differences: equal ones in different files (one suffix), tiny ones (exponent notation in the float column),
+    # zero, negative
+    for deltas in ([230, 230, 460, 230], [1, 100000, 30, 1], [0, 0, 0], [1, 2, 3], [-5, 5, 159949, -10078], [0, 1, 20000],
+                   [7, 70000], [3, 3]):
+        for b in (None, "0.01", "0.5"):
+            for nf in (1, 2):
+                for ex in (None, {"kind": "list", "names": ["mass_diff"]}):
+                    kw = {}
+                    if b:
+                        kw["bin"] = b
+                    if ex:
+                        kw["exclude"] = ex
+                    add(tbl_doc({"s": [str(k + 1) for k in range(len(deltas))]}, deltas=deltas, nfiles=nf,
+                                charges=[2] * len(deltas)),
+                        ["mass-diffs", f"files={nf}"] + (["open-mod-bin"] if b else []) + (["exclude=list"] if ex else []), **kw)
+    return cases
+
+
+def as_table(cases):
+    """[R2.20] these cases are compared with the model of the whole reader (Model/PepxmlPost.v, entry c20.table)"""
+    for c in cases:
+        if not collides(c):
+            c["fn"] = "table"
+            c["tags"].append("table-model")
+    return cases
+
+
 def gen(ctx):
     return (gen_collisions(ctx) + gen_exhaustive(ctx) + gen_random(ctx) + gen_malformed(ctx)
-            + gen_formats(ctx) + gen_exh_options(ctx) + gen_prefixes(ctx) + gen_options(ctx) + gen_big(ctx)
-            + gen_state(ctx) + gen_malformed2(ctx))
+            + gen_formats(ctx) + as_table(gen_exh_options(ctx)) + gen_prefixes(ctx) + as_table(gen_options(ctx))
+            + as_table(gen_big(ctx)) + gen_state(ctx) + as_table(gen_malformed2(ctx)) + as_table(gen_table_exh(ctx)))
 
 
 def nontrivial(c):
